@@ -222,7 +222,7 @@ func (y *c08Run) stepPropose() {
 	idx, _ := y.e1.K.GetNextOutputIndex(y.e1.Ctx, y.B)
 	o.idx = idx
 	y.l2block += 1 + uint64(y.r.Intn(5))
-	res := y.l1(L1Op{Kind: "propose", Sender: y.e1.User(1).Str, Bridge: y.B, Idx: idx, L2: y.l2block, Root: outputRootOf(o.version, o.tree.Root(), o.bhash)})
+	res := y.l1(L1Op{Kind: "propose", Sender: y.role(true), Bridge: y.B, Idx: idx, L2: y.l2block, Root: outputRootOf(o.version, o.tree.Root(), o.bhash)})
 	y.rep.Hist("propose:" + okStr(res.OK))
 	if res.OK {
 		y.outs = append(y.outs, o)
@@ -242,8 +242,7 @@ func (y *c08Run) stepChallenge() {
 	if last == nil {
 		return
 	}
-	y.e1.Resolve(y.e1.User(2).Str)
-	res := y.l1(L1Op{Kind: "delete", Sender: y.e1.User(2).Str, Bridge: y.B, Idx: last.idx})
+	res := y.l1(L1Op{Kind: "delete", Sender: y.role(false), Bridge: y.B, Idx: last.idx})
 	y.rep.Hist("challenge:" + okStr(res.OK))
 	if res.OK {
 		last.deleted = true
@@ -252,6 +251,51 @@ func (y *c08Run) stepChallenge() {
 		y.rejected++
 	}
 	y.check("challenge")
+}
+
+// the current proposer / challenger of the bridge (roles move during the run)
+func (y *c08Run) role(proposer bool) string {
+	cfg, err := y.e1.K.GetBridgeConfig(y.e1.Ctx, y.B)
+	if err != nil {
+		panic(err)
+	}
+	s := cfg.Challenger
+	if proposer {
+		s = cfg.Proposer
+	}
+	y.e1.Resolve(s)
+	return s
+}
+
+// L1 role / config messages (system step Admin1): they must not disturb the equation
+func (y *c08Run) stepAdmin() {
+	r, e1 := y.r, y.e1
+	signer := e1.Auth
+	switch r.Intn(3) {
+	case 0:
+		signer = y.role(true)
+	case 1:
+		signer = e1.User(uint64(1 + r.Intn(7))).Str // usually not authorised
+	}
+	e1.Resolve(signer)
+	nu := e1.User(uint64(1 + r.Intn(7))).Str
+	e1.Resolve(nu)
+	var res ExecResult
+	switch r.Intn(4) {
+	case 0:
+		res = y.l1(L1Op{Kind: "uproposer", Sender: signer, Bridge: y.B, NewAddr: nu})
+	case 1:
+		if r.Bool() {
+			signer = y.role(false)
+		}
+		res = y.l1(L1Op{Kind: "uchallenger", Sender: signer, Bridge: y.B, NewAddr: nu})
+	case 2:
+		res = y.l1(L1Op{Kind: "umeta", Sender: signer, Bridge: y.B, Meta: r.Bytes(r.Intn(10))})
+	default:
+		res = y.l1(L1Op{Kind: "recordbatch", Sender: nu, Bridge: y.B, Data: r.Bytes(1 + r.Intn(4))})
+	}
+	y.rep.Hist("admin1:" + okStr(res.OK))
+	y.check("L1 role/config message")
 }
 
 func (y *c08Run) outFor(k int, final bool) *c08Out {
@@ -388,7 +432,7 @@ func genC08(seed uint64, tier string, outdir string) *Report {
 		r := y.r
 		nSteps := 200 + r.Intn(201)
 		for i := 0; i < nSteps; i++ {
-			switch r.Weighted([]int{22, 22, 14, 5, 4, 6, 3, 8, 12, 4}) {
+			switch r.Weighted([]int{22, 22, 14, 5, 4, 6, 3, 8, 12, 4, 3}) {
 			case 0:
 				amt := c04Amount(r)
 				if r.Chance(85) {
@@ -424,6 +468,8 @@ func genC08(seed uint64, tier string, outdir string) *Report {
 				if hookCase {
 					y.stepHookWithdrawal()
 				}
+			case 10:
+				y.stepAdmin()
 			}
 		}
 		y.drain()
@@ -447,7 +493,11 @@ func genC08(seed uint64, tier string, outdir string) *Report {
 		}
 	}
 	rep.Notes = append(rep.Notes, "solvency equation and event/sequence bookkeeping checked after every step; a third of the cases contain deposits whose hook tx carries a withdrawal of the recipient (D14)")
-	writeShards(outdir, "C08", l1CaseHeader, "run_l1case", "l1case", texts1, 6, rep)
-	writeShards(outdir, "C08L2", l2CaseHeader, "run_l2case", "l2case", texts2, 2, rep)
+	nsh := 6
+	if tier == "thorough" { // the per-shard coqc timeout of the checker is 1700 s
+		nsh = 12
+	}
+	writeShards(outdir, "C08", l1CaseHeader, "run_l1case", "l1case", texts1, nsh, rep)
+	writeShards(outdir, "C08L2", l2CaseHeader, "run_l2case", "l2case", texts2, nsh/3, rep)
 	return rep
 }
